@@ -496,6 +496,11 @@ pub enum FetchSt {
 pub struct C16State {
     /// (is_tx, hash) -> (last status, client incarnation, client tip number when first asked)
     pub st: BTreeMap<(bool, Vec<u8>), (FetchSt, u64, u64)>,
+    /// tx hash -> block (hash, number) named by an honest transactions proof the client asked
+    /// for and consumed; cleared whenever the client's stored tip leaves its previous chain
+    pub proven_at: BTreeMap<Vec<u8>, (Vec<u8>, u64)>,
+    /// world id of the stored tip as last seen
+    pub tip_id: Option<usize>,
 }
 pub use crate::txgen::C18State;
 #[derive(Default)]
@@ -1124,7 +1129,14 @@ pub fn c11_before(ck: &mut Checker, sim: &mut Sim, s: usize, _p: Proto, _d: &Byt
     c11_note_inflight(ck, sim);
     ck.c11.answers_outstanding = None;
     ck.c11.proof_requested_in_event.clear();
-    if t.kind == Kind::SendLastStateProof && t.honest && !t.layout.as_ref().map(|l| l.tip_changed).unwrap_or(true) {
+    // a peer serving an attacker-mined branch answers in good form, but its chain is invalid:
+    // its answer is rightly rejected and the request stays until the ban closes the session
+    let forged_chain = sim
+        .sessions
+        .get(&s)
+        .map(|p| sim.world.branches[sim.peers[*p].view.branch].forged)
+        .unwrap_or(false);
+    if t.kind == Kind::SendLastStateProof && t.honest && !forged_chain && !t.layout.as_ref().map(|l| l.tip_changed).unwrap_or(true) {
         if let (Some(c), Some(req)) = (sim.client.as_ref(), t.request.as_ref()) {
             let outstanding = c
                 .peers
@@ -1745,7 +1757,72 @@ pub fn c06_after(ck: &mut Checker, sim: &mut Sim, session: usize, _p: Proto, dat
         }
     }
 }
-pub fn c16_after_deliver(_ck: &mut Checker, _sim: &mut Sim, _s: usize, _p: Proto, _d: &Bytes, _t: &Tag) {}
+/// Forget the proven locations when the client's stored tip moved off its previous chain.
+pub fn c16_note_tip(ck: &mut Checker, sim: &Sim) {
+    let c = match sim.client.as_ref() {
+        Some(c) => c,
+        None => return,
+    };
+    let tip = c.storage.get_last_state().1.calc_header_hash();
+    if let Some(id) = sim.world.by_hash.get(&tip).cloned() {
+        if let Some(prev) = ck.c16.tip_id {
+            if !sim.world.is_ancestor_or_self(prev, id) {
+                ck.c16.proven_at.clear();
+            }
+        }
+        ck.c16.tip_id = Some(id);
+    }
+}
+
+/// The block a consumed, honest transactions proof named for `h` - if that block is still on
+/// the chain of the client's stored tip.
+pub fn c16_proven_block(ck: &mut Checker, sim: &Sim, h: &Byte32) -> Option<(String, u64)> {
+    c16_note_tip(ck, sim);
+    let (bh, n) = ck.c16.proven_at.get(h.as_slice())?.clone();
+    let b = Byte32::from_slice(&bh).ok()?;
+    let id = *sim.world.by_hash.get(&b)?;
+    let tip = ck.c16.tip_id?;
+    if !sim.world.is_ancestor_or_self(id, tip) {
+        return None;
+    }
+    Some((format!("{:#x}", b), n))
+}
+
+pub fn c16_after_deliver(ck: &mut Checker, sim: &mut Sim, s: usize, _p: Proto, d: &Bytes, t: &Tag) {
+    c16_note_tip(ck, sim);
+    if t.kind != Kind::SendTransactionsProof || !t.honest {
+        return;
+    }
+    let asked: Vec<Vec<u8>> = ck.c11.inflight.get(&s).map(|x| x.1.clone()).unwrap_or_default();
+    if asked.is_empty() {
+        return;
+    }
+    let c = match sim.client.as_ref() {
+        Some(c) => c,
+        None => return,
+    };
+    let m = match packed::LightClientMessageReader::from_compatible_slice(d) {
+        Ok(m) => m,
+        Err(_) => return,
+    };
+    if let packed::LightClientMessageUnionReader::SendTransactionsProof(r) = m.to_enum() {
+        for fb in r.filtered_blocks().iter() {
+            let header = fb.header().to_entity().into_view();
+            // consumed: the header the answer names is stored now
+            if ckb_traits::HeaderProvider::get_header(&c.storage, &header.hash()).is_none() {
+                continue;
+            }
+            for tx in fb.transactions().iter() {
+                let th = tx.to_entity().calc_tx_hash();
+                if asked.iter().any(|a| a.as_slice() == th.as_slice()) {
+                    ck.c16
+                        .proven_at
+                        .insert(th.as_slice().to_vec(), (header.hash().as_slice().to_vec(), header.number()));
+                }
+            }
+        }
+    }
+}
 
 /// Liveness: with an honest proven peer connected and faults stopped, every fetch is answered.
 pub fn c16_at_end(ck: &mut Checker, sim: &mut Sim) {
@@ -1782,6 +1859,12 @@ pub fn c16_at_end(ck: &mut Checker, sim: &mut Sim) {
                 );
             } else {
                 sim.stat("probe.c16.completed");
+            }
+            // the final answer is judged like any other
+            if is_tx {
+                crate::oracle3::c16_on_fetch_tx(ck, sim, &hash, Some(Ok(v)));
+            } else {
+                crate::oracle3::c16_on_fetch_header(ck, sim, &hash, Some(Ok(v)));
             }
         }
     }
